@@ -135,6 +135,7 @@ type vnChunkReader struct {
 	off    int
 	failAt int // fail (with vnErr) once off >= failAt; -1 = never
 	calls  int
+	min    int // minimum chunk size while data remain (0 allows zero-length reads)
 }
 
 var vnErr = errors.New("vn reader failure")
@@ -156,7 +157,11 @@ func (r *vnChunkReader) Read(p []byte) (int, error) {
 	}
 	k := max
 	if r.calls <= 3 {
-		k = vRange("chunk", 0, max)
+		lo := r.min
+		if lo > max {
+			lo = max
+		}
+		k = vRange("chunk", lo, max)
 	}
 	copy(p, r.data[r.off:r.off+k])
 	r.off += k
